@@ -556,3 +556,98 @@ Section OfDFA.
     apply fa_gnfa_ok. exact Hinit.
   Qed.
 End OfDFA.
+
+(* ---------- GNFA.from_nfa ---------- *)
+Definition oword (o : option nat) : word := match o with None => [] | Some a => [a] end.
+
+Section OfNFA.
+  Variable n : nfa.
+  Hypothesis Hv : valid_nfa n = true.
+
+  Lemma rden_osym o u : rden (osym_rex o) u <-> u = oword o.
+  Proof. destruct o; simpl; unfold l_eps; tauto. Qed.
+
+  Lemma nfa_lab_spec p m u :
+    (exists s, nfa_lab n p m = Some s /\ rden s u) <-> (exists o, n_edge n p o m /\ u = oword o).
+  Proof.
+    unfold nfa_lab, n_edge. destruct (assoc p (n_trans n)) as [row|] eqn:Er.
+    - rewrite unions_spec. split.
+      + intros (r & Hr & Hu). apply in_flat_map in Hr. destruct Hr as (e & He & Hr).
+        destruct (memb m (n_targets n p (fst e))) eqn:E; [|destruct Hr].
+        destruct Hr as [Hr|[]]. subst r. apply rden_osym in Hu.
+        exists (fst e). split; [apply memb_In; exact E|exact Hu].
+      + intros (o & Ho & ->). exists (osym_rex o). split; [|apply rden_osym; reflexivity].
+        apply in_flat_map.
+        assert (Hk : exists l, In (o, l) row).
+        { unfold n_targets in Ho. rewrite Er in Ho. destruct (oassoc o row) as [l|] eqn:E; [|destruct Ho].
+          exists l. apply oassoc_In. exact E. }
+        destruct Hk as [l Hl]. exists (o, l). split; [exact Hl|]. simpl.
+        apply memb_In in Ho. rewrite Ho. left. reflexivity.
+    - split; [intros (s & E & _); discriminate|].
+      intros (o & Ho & _). unfold n_targets in Ho. rewrite Er in Ho. destruct Ho.
+  Qed.
+
+  Lemma nfa_inner_lang : forall w p, In p (n_states n) ->
+    (lpath (label (gnfa_of_nfa n)) p w (S (fresh (n_states n))) <->
+     exists t, nfa_path n p w t /\ In t (n_finals n)).
+  Proof.
+    destruct (valid_nfa_parts n Hv) as (_ & _ & Hinit & Hfin).
+    intros w p Hp. split.
+    - revert p w Hp. apply (fa_path_ind (n_states n) (n_init n) (n_finals n) (nfa_lab n) Hinit
+        (fun p w => exists t, nfa_path n p w t /\ In t (n_finals n))).
+      + intros p Hp Hf. exists p. split; [apply np_refl|exact Hf].
+      + intros p m s u v Hp Hm Hl Hu _ (t & Ht & Hf).
+        destruct (proj1 (nfa_lab_spec p m u) (ex_intro _ s (conj Hl Hu))) as (o & Ho & ->).
+        exists t. split; [|exact Hf]. destruct o as [a|]; simpl.
+        * eapply np_sym; [exact Ho|exact Ht].
+        * eapply np_eps; [exact Ho|exact Ht].
+    - intros (t & Ht & Hf). revert Hp.
+      induction Ht as [q|p q r w He Hp' IH|p a q r w He Hp' IH]; intro Hp.
+      + apply fa_path_final; [exact Hp|exact Hf].
+      + assert (Hq : In q (n_states n)) by (apply (targets_in_states n Hv p None q); exact He).
+        destruct (proj2 (nfa_lab_spec p q []) (ex_intro _ None (conj He eq_refl))) as (s & Hl & Hu).
+        change w with ([] ++ w). apply (fa_path_step _ _ _ _ p q s [] w Hp Hq Hl Hu). apply IH; assumption.
+      + assert (Hq : In q (n_states n)) by (apply (targets_in_states n Hv p (Some a) q); exact He).
+        destruct (proj2 (nfa_lab_spec p q [a]) (ex_intro _ (Some a) (conj He eq_refl))) as (s & Hl & Hu).
+        change (a :: w) with ([a] ++ w). apply (fa_path_step _ _ _ _ p q s [a] w Hp Hq Hl Hu). apply IH; assumption.
+  Qed.
+
+  Theorem gnfa_of_nfa_lang : L_gnfa (gnfa_of_nfa n) =L L_nfa n.
+  Proof.
+    destruct (valid_nfa_parts n Hv) as (_ & _ & Hinit & _).
+    intro w. unfold gnfa_of_nfa. rewrite (fa_lang_from_q0 _ _ _ _ Hinit).
+    apply (nfa_inner_lang w (n_init n) Hinit).
+  Qed.
+
+  Lemma gnfa_of_nfa_ok : gnfa_ok (gnfa_of_nfa n).
+  Proof.
+    destruct (valid_nfa_parts n Hv) as (_ & _ & Hinit & _).
+    apply fa_gnfa_ok. exact Hinit.
+  Qed.
+End OfNFA.
+
+(* ---------- end to end: source automaton -> expression ---------- *)
+Lemma fa_elim_lang sts q0 finals lab order : In q0 sts ->
+  (forall p, In p order <-> In p sts) ->
+  rden (elim (fa_gnfa sts q0 finals lab) order) =L L_gnfa (fa_gnfa sts q0 finals lab).
+Proof.
+  intros Hq0 Hord. apply elim_lang.
+  - apply fa_gnfa_ok. exact Hq0.
+  - simpl. intro H. apply Hord in H. revert H. apply fa_i_notin.
+  - simpl. intro H. apply Hord in H. revert H. apply fa_f_notin.
+  - simpl. intros p [E|[E|H]]; auto. right. right. apply Hord. exact H.
+Qed.
+
+Theorem dfa_regex_lang d order : valid_dfa d = true -> (forall p, In p order <-> In p (d_states d)) ->
+  rden (dfa_regex d order) =L L_dfa d.
+Proof.
+  intros Hv Hord. destruct (valid_dfa_parts d Hv) as (_ & _ & _ & _ & _ & Hinit & _).
+  eapply lang_eq_trans; [apply fa_elim_lang; assumption|apply gnfa_of_dfa_lang; exact Hv].
+Qed.
+
+Theorem nfa_regex_lang n order : valid_nfa n = true -> (forall p, In p order <-> In p (n_states n)) ->
+  rden (nfa_regex n order) =L L_nfa n.
+Proof.
+  intros Hv Hord. destruct (valid_nfa_parts n Hv) as (_ & _ & Hinit & _).
+  eapply lang_eq_trans; [apply fa_elim_lang; assumption|apply gnfa_of_nfa_lang; exact Hv].
+Qed.
